@@ -33,7 +33,8 @@ TraceDeliver ==
   /\ \E m \in DOMAIN net :
        /\ StripM(m) = EvM(ev)
        /\ Deliver(m, ev.dup)
-  /\ last'.res = ev.res
+  \* from outside, the three ways of dropping a new announcement look alike (the call returns false)
+  /\ IF ev.res = "dropped" THEN last'.res \in {"seenby", "loop", "hops"} ELSE last'.res = ev.res
   /\ StateOK(ev.dst)
 \* a frame the receiving agent could not decode (the harness does not know what it was meant to carry)
 TraceUndecodable ==
@@ -42,7 +43,7 @@ TraceUndecodable ==
 TraceExpire == Consume("ExpireSeen") /\ ExpireSeen(ev.n, <<ev.o, ev.seq>>) /\ StateOK(ev.n)
 TraceConnect == Consume("Connect") /\ Connect(ToSet(ev.l))
 TraceDisconnect == Consume("Disconnect") /\ Disconnect(ToSet(ev.l))
-TraceReplay == Consume("Replay") /\ ReplayWith(ev.n, ev.p, ev.own) /\ StateOK(ev.n)
+TraceReplay == Consume("Replay") /\ (ReplayWith(ev.n, ev.p, ev.own) \/ DevReplay(ev.n, ev.p)) /\ StateOK(ev.n)
 TracePeerGone == Consume("PeerGone") /\ PeerGone(ev.n, ev.p) /\ StateOK(ev.n)
 TraceAgeAll == Consume("AgeAll") /\ AgeAll
 TraceCleanup == Consume("CleanupStale") /\ CleanupStale(ev.n) /\ StateOK(ev.n)
